@@ -21,6 +21,17 @@ def describe(fail):
                json.dumps(fail["first_unmatched"]), hist[-12:]))
 
 
+def describe_out(fail):
+    sc = fail["scenario"]
+    r = sc[0]
+    k = fail["matched"]
+    hist = [("chk", e["tok"], limbs_to_int(e["s"]), e["ok"]) if e["ev"] == "chk" else ("acc", e["tok"], e["fl"])
+            for e in sc[1:k + 1]]
+    return ("detector kind=%s W=%d max=%d, callbacks invoked later than the next Check: the real detector answered %s, "
+            "which C04 does not allow; history (chk, token, number, ok) / (acc, token, flag) = %s"
+            % (r["kind"], r["W"], limbs_to_int(r["max"]), json.dumps(fail["first_unmatched"]), hist[-14:]))
+
+
 def run(pid, tier, seed):
     rep = vlib.Report(pid, tier, seed)
     rng = random.Random(seed)
@@ -87,6 +98,37 @@ def run(pid, tier, seed):
                                    "VERIF_REPS": 1 if tier == "quick" else 6})
     if rc != 0:
         return harness_failed(rep, out)
+    # 3b. C04 also for callbacks invoked late (several outstanding checks): tours of MC_ReplayOut + a driver
+    out_lines = []
+    if pid == "C04":
+        dot2 = os.path.join(d, "g2.dot")
+        r3 = vlib.tlc_must_pass(vlib.run_tlc("replay", "MC_ReplayOut", "MC_ReplayOut.cfg",
+                                             args=["-dump", "dot,actionlabels", dot2]), "MC_ReplayOut")
+        rep.add_tlc(r3)
+        inits2, adj2, ne2 = vlib.load_graph(dot2)
+        ts2, cov2, tot2 = vlib.tours(inits2, adj2, max_len=24, rng=rng, max_tours=6000 if tier == "quick" else None)
+        scen2 = os.path.join(d, "scen2.ndjson")
+        with open(scen2, "w") as f:
+            for t in ts2:
+                name, a = vlib.parse_label(t[0])
+                assert name == "Cfg", t[0]
+                ops = []
+                for lab in t[1:]:
+                    nm, args = vlib.parse_label(lab)
+                    ops.append({"op": nm.lower(), "k": args[0], "n": str(args[1]) if nm == "Chk" else "0"})
+                f.write(json.dumps({"cfg": {"kind": a[0], "W": a[1], "max": str(a[2])}, "ops": ops}) + "\n")
+        rep.extra["outstanding_graph_edges"] = ne2
+        rep.extra["outstanding_tour_edges_covered"] = cov2
+        log("outstanding-check tours: %d covering %d/%d edges" % (len(ts2), cov2, tot2))
+        for run_re, env in (("^TestVerifReplayOutTours$", {"VERIF_SCEN": scen2}),
+                            ("^TestVerifReplayOutDriver$", {"VERIF_OPS": 200 if tier == "quick" else 1500})):
+            tp = os.path.join(d, "out-%s.trace" % ("tours" if "Tours" in run_re else "driver"))
+            e = {"VERIF_TRACE": tp, "VERIF_SEED": seed}
+            e.update(env)
+            rc, out, _ = vlib.go_test(repo, "./replaydetector/", run_re, env=e)
+            if rc != 0:
+                return harness_failed(rep, out)
+            out_lines += vlib.read_ndjson(tp)
     # 4. trace validation
     lines = vlib.read_ndjson(tr_tour) + vlib.read_ndjson(tr_drv)
     rep.extra["trace_events"] = len(lines)
@@ -98,6 +140,14 @@ def run(pid, tier, seed):
     for fl in fails:
         rep.violation({"trace": fl["scenario"], "matched": fl["matched"], "spec": "specs/replay/TraceReplay.tla",
                        "cfg": mode_cfg}, describe(fl))
+    if out_lines:
+        o_ok, o_fails, st2 = vlib.validate_scenarios("replay", "TraceReplayOut", "TraceReplayOut.cfg", out_lines)
+        rep.traces += o_ok + len(o_fails)
+        rep.extra["outstanding_trace_events"] = len(out_lines)
+        for fl in o_fails:
+            rep.violation({"trace": fl["scenario"], "matched": fl["matched"], "spec": "specs/replay/TraceReplayOut.tla"},
+                          describe_out(fl))
+        fails = fails + o_fails
     # 5. binding self-test (thorough): a corrupted trace must be rejected
     if not fails:
         sc = [s for s in vlib.split_scenarios(lines) if any(e.get("acc") for e in s[1][1:])]
